@@ -348,6 +348,7 @@ func c16Case(c *Ctx, i int, r *gen.Rng) {
 	if err != nil {
 		return
 	}
+	defer hookSchedule(c, i, astHooks)()
 	G := r.Range(2, 12)
 	got := make([][]string, G)
 	orders := make([][]int, G)
